@@ -55,7 +55,8 @@ class LinksMachine(TraceMachine):
         os.mkdir(self.root)
         self.cpath = os.path.join(self.dir, "cache")
         self.state = ops.make_state(self.root, os.path.join(self.dir, "st"))
-        self.model = {s: {"recorded": False, "touched": False, "why": None, "sig": None} for s in SLOTS}
+        self.model = {s: {"recorded": False, "touched": False, "why": None, "sig": None, "tok": None}
+                      for s in SLOTS}
         self.seen = {}        # abs path -> set of float mtimes ever observed/assigned
         self.k = 0
         self.labels = set()
@@ -97,6 +98,12 @@ class LinksMachine(TraceMachine):
         for f in self.files_of(path):
             files[os.path.relpath(f, path)] = (os.stat(f).st_mtime, ref.read(f))
         return (os.lstat(path).st_ino, files)
+
+    def tok(self, path):
+        """What the link record of a *file* entry can see: (inode of the path, mtime of the file)."""
+        if os.path.isdir(path) and not os.path.islink(path):
+            return None
+        return (os.lstat(path).st_ino, os.stat(path).st_mtime)
 
     def observe(self, path):
         """Remember the mtimes an entry's files carry right now (called at record time)."""
@@ -168,7 +175,8 @@ class LinksMachine(TraceMachine):
                     self.write_new(os.path.join(path, *name.split("/")), gen.content_bytes(c), delta)
         self.state.save_link(path, self.fs)
         self.observe(path)
-        self.model[rel] = {"recorded": True, "touched": False, "why": None, "sig": self.sig(path)}
+        self.model[rel] = {"recorded": True, "touched": False, "why": None, "sig": self.sig(path),
+                           "tok": self.tok(path)}
         self.n_records += 1
         self.labels.add("record:save_link:" + ("dir" if os.path.isdir(path) else "file"))
 
@@ -197,7 +205,8 @@ class LinksMachine(TraceMachine):
         os.makedirs(os.path.dirname(path), exist_ok=True)
         checkout(path, self.fs, obj, odb, relink=True, state=self.state)
         self.observe(path)
-        self.model[rel] = {"recorded": True, "touched": False, "why": None, "sig": self.sig(path)}
+        self.model[rel] = {"recorded": True, "touched": False, "why": None, "sig": self.sig(path),
+                           "tok": self.tok(path)}
         self.n_records += 1
         self.labels.add(f"record:checkout:{link}:" + ("dir" if kind == "dir" else "file"))
 
@@ -228,20 +237,28 @@ class LinksMachine(TraceMachine):
             self.touch(rel, "modified-recreated")
 
     @traced
-    def user_replace(self, slot, content, keep_mtime, delta):
-        """Replace by a new inode (temp sibling + rename); a file may keep its old mtime."""
+    def user_replace(self, slot, content, keep_mtime, delta, recycle=False):
+        """Replace by a new inode (temp sibling + rename); a file may keep its old mtime.
+
+        recycle (files, with keep_mtime): a second replacement brings the *original* inode back with
+        other bytes and the kept mtime - what inode-number recycling does by itself on ext4 (two
+        successive replacements), provoked here by parking the old file aside so that it also
+        happens on tmpfs.  If the resulting (inode, mtime) equals the record-time pair the change is
+        invisible to the recorded token: outside the property, the entry counts as unmodified.
+        """
         rel = self.existing(slot)
         if rel is None:
             return
         path = self.p(rel)
         tmp = path + ".user-tmp"
+        aside = path + ".user-old"
         old_ino = os.lstat(path).st_ino
+        recycled = False
         if os.path.isdir(path) and not os.path.islink(path):
             os.mkdir(tmp)
             for f in self.files_of(path):
                 r = os.path.relpath(f, path)
                 gen.write_file(os.path.join(tmp, r), ref.read(f))
-            aside = path + ".user-old"
             os.rename(path, aside)
             os.rename(tmp, path)
             shutil.rmtree(aside)
@@ -250,15 +267,35 @@ class LinksMachine(TraceMachine):
             self.touch(rel, "replaced-dir")
         else:
             old = os.stat(path)
-            gen.write_file(tmp, gen.content_bytes(content))
-            os.replace(tmp, path)
-            if keep_mtime:
+            plain = not os.path.islink(path) and os.lstat(path).st_nlink == 1
+            data = gen.content_bytes(content)
+            if recycle and keep_mtime and plain:
+                os.rename(path, aside)                      # the old inode stays alive, parked
+                gen.write_file(tmp, data)
+                os.replace(tmp, path)                       # first replacement: new inode
+                with open(aside, "r+b") as fh:              # never a link: plain file, nlink == 1
+                    fh.truncate(0)
+                    fh.write(data + b"#2")
+                os.replace(aside, path)                     # second replacement: the old inode is back
                 os.utime(path, ns=(old.st_mtime_ns, old.st_mtime_ns))
+                recycled = True
                 self.touch(rel, "replaced-same-mtime")
             else:
-                self.stamp(path, delta, base_ns=old.st_mtime_ns)
-                self.touch(rel, "replaced")
-        if os.lstat(path).st_ino == old_ino:
+                gen.write_file(tmp, data)
+                os.replace(tmp, path)
+                if keep_mtime:
+                    os.utime(path, ns=(old.st_mtime_ns, old.st_mtime_ns))
+                    self.touch(rel, "replaced-same-mtime")
+                else:
+                    self.stamp(path, delta, base_ns=old.st_mtime_ns)
+                    self.touch(rel, "replaced")
+            m = self.model[rel]
+            if m["recorded"] and m["tok"] is not None and self.tok(path) == m["tok"]:
+                # (inode, mtime) is exactly what was recorded (inode number recycled by the file
+                # system or brought back above, mtime kept): token-preserving, counts as unmodified
+                m["sig"] = self.sig(path)
+                self.labels.add("inode-recycled-token-preserved")
+        if not recycled and os.lstat(path).st_ino == old_ino:
             raise HarnessError("replace did not produce a new inode")
 
     @traced
@@ -341,11 +378,11 @@ class LinksMachine(TraceMachine):
     USER_OPS = (["modify"] * 4 + ["replace"] * 3 + ["add_in_dir"] * 2 + ["rename_in_dir"] * 2
                 + ["delete_in_dir", "remove", "create", "bystander"])
 
-    def _user(self, what, slot, sub, content, flag, delta, name, kind, tree, then_cleanup):
+    def _user(self, what, slot, sub, content, flag, delta, name, kind, tree, then_cleanup, recycle):
         if what == "modify":
             self.user_modify(slot=slot, sub=sub, content=content, inplace=flag, delta=delta)
         elif what == "replace":
-            self.user_replace(slot=slot, content=content, keep_mtime=flag, delta=delta)
+            self.user_replace(slot=slot, content=content, keep_mtime=flag, delta=delta, recycle=recycle)
         elif what == "add_in_dir":
             self.user_add_file_in_dir(slot=slot, name=name, content=content, delta=delta)
         elif what == "rename_in_dir":
@@ -365,7 +402,7 @@ class LinksMachine(TraceMachine):
         what=st.sampled_from(USER_OPS), slot=slot_s, sub=st.integers(0, 5), content=content_s,
         flag=st.sampled_from([True, True, False]), delta=delta_s,
         name=st.sampled_from(INNER + ["new", "renamed"]), kind=st.sampled_from(["file", "dir"]), tree=tree_s,
-        then_cleanup=st.booleans())
+        then_cleanup=st.booleans(), recycle=st.sampled_from([False, False, True]))
 
     @rule(**_USER_ARGS)
     def user_a(self, **kw):
@@ -436,7 +473,7 @@ class LinksMachine(TraceMachine):
                          f"({sorted(set(cache_before) ^ set(cache_after))})")
 
         for u in unused:
-            self.model[u] = {"recorded": False, "touched": False, "why": None, "sig": None}
+            self.model[u] = {"recorded": False, "touched": False, "why": None, "sig": None, "tok": None}
         self.n_removed += len(unused)
 
         # coverage bookkeeping
